@@ -1,23 +1,24 @@
 package main
 
 import (
+	"math"
 	"strings"
 )
 
 // ---- generators for documents, criteria, queries and histories over a small schema ----
 
-var collNames = []string{"a", "ab", "a.b", "é", "", "c d"}
-var fieldNames = []string{"x", "xy", "y", "n.a", "n", "n.b", "z"}
-var indexable = []string{"x", "xy", "y", "n.a", "n", "_id"}
+var collNames = []string{"a", "ab", "a.b", "é", "", "c d", "measurements"}
+var fieldNames = []string{"x", "xy", "y", "n.a", "n", "n.b", "z", "temperature"}
+var indexable = []string{"x", "xy", "y", "n.a", "n", "_id", "temperature"}
 
 type HistGen struct {
-	G     *Gen
-	Pool  []interface{} // values the history's documents and literals draw from
-	Colls []string
-	NextId int
-	Ids   []string // ids handed out so far
+	G        *Gen
+	Pool     []interface{} // values the history's documents and literals draw from
+	Colls    []string
+	NextId   int
+	Ids      []string // ids handed out so far
 	MaxDepth int
-	Focus []string // fields the criteria and sorts prefer (the indexed ones)
+	Focus    []string // fields the criteria and sorts prefer (the indexed ones)
 }
 
 func NewHistGen(g *Gen, ncoll int, critDepth int) *HistGen {
@@ -62,7 +63,7 @@ func (h *HistGen) Doc(id string) map[string]interface{} {
 	if id != "" {
 		m["_id"] = id
 	}
-	for _, f := range []string{"x", "xy", "y"} {
+	for _, f := range []string{"x", "xy", "y", "temperature"} {
 		if h.G.pick(10) < 7 {
 			m[f] = h.val()
 		}
@@ -143,7 +144,19 @@ func (h *HistGen) Leaf() J {
 	return J{"cmp": []interface{}{ops[h.G.pick(5)], f, h.operand()}}
 }
 
+// sameFieldPair: two comparisons on one field whose ranges overlap or nest (x > a AND x >= b ...)
+func (h *HistGen) sameFieldPair() J {
+	f := hx(h.field())
+	ops := []string{"gt", "ge", "lt", "le", "eq"}
+	a := J{"cmp": []interface{}{ops[h.G.pick(5)], f, J{"lit": encValue(h.val())}}}
+	b := J{"cmp": []interface{}{ops[h.G.pick(5)], f, J{"lit": encValue(h.val())}}}
+	return J{"and": []interface{}{a, b}}
+}
+
 func (h *HistGen) Crit(depth int) J {
+	if depth > 0 && h.G.pick(8) == 0 {
+		return h.sameFieldPair()
+	}
 	if depth <= 0 || h.G.pick(3) == 0 {
 		return h.Leaf()
 	}
@@ -187,8 +200,8 @@ func (h *HistGen) Query(coll string) J {
 	case 4:
 		q["sortDefault"] = true
 	}
-	skips := []int{0, 0, 0, 0, 1, 2, 10, -1}
-	limits := []int{-1, -1, -1, -1, 0, 1, 2, 5, 100, -7}
+	skips := []int{0, 0, 0, 0, 1, 2, 10, -1, 1, math.MaxInt}
+	limits := []int{-1, -1, -1, -1, 0, 1, 2, 5, 100, -7, math.MaxInt, math.MaxInt - 1, math.MinInt}
 	if s := skips[h.G.pick(len(skips))]; s != 0 {
 		q["skip"] = s
 	}
